@@ -224,18 +224,26 @@ pub fn dec_discard<T: Bridge>(b: &[u8]) -> DecRun {
 }
 
 /// drain what is still readable from the context through its public `BinaryInput` impl
-pub fn drain(ctx: &mut DeserializationContext<'_>) -> Vec<u8> {
-    let mut rest = Vec::new();
-    while let Ok(b) = ctx.read_u8() {
-        rest.push(b);
-    }
-    rest
+/// (a library call like any other: `None` when it unwinds; it stops after 2^20 bytes - no input of
+/// the harness is that long, so a reader that never reports the end cannot hang the check)
+pub fn drain(ctx: &mut DeserializationContext<'_>) -> Option<Vec<u8>> {
+    std::panic::catch_unwind(std::panic::AssertUnwindSafe(|| {
+        let mut rest = Vec::new();
+        while let Ok(b) = ctx.read_u8() {
+            rest.push(b);
+            if rest.len() > 1 << 20 {
+                break;
+            }
+        }
+        rest
+    }))
+    .ok()
 }
 
 pub fn dec_ctx<T: Bridge>(b: &[u8]) -> DecRun {
     let mut ctx = DeserializationContext::new(b);
     let (o, m) = guarded(|| T::deserialize(&mut ctx));
-    let rest = if o.is_panic() { None } else { Some(drain(&mut ctx)) };
+    let rest = if o.is_panic() { None } else { drain(&mut ctx) };
     DecRun { out: o.map(|x| x.to_val()), max_alloc: m, rest }
 }
 
